@@ -125,3 +125,84 @@ Proof.
     + apply N.ltb_lt in EA. split; [exact EA | reflexivity].
     + apply N.ltb_ge in EA. exact EA.
 Qed.
+
+(* ---- BinaryLogarithm for u256 *)
+From SwayV Require Import C27.LogProofs.
+
+Lemma limb_val a k : limb a k = (a / 2 ^ (64 * k)) mod 2 ^ 64.
+Proof. unfold limb. rewrite land_max64, N.shiftr_div_pow2. reflexivity. Qed.
+
+(* the highest non-zero limb h at position k: a / 2^(64k) = h *)
+Lemma log2_at_limb a k : a / 2 ^ (64 * (k + 1)) = 0 -> limb a k <> 0 -> 64 * k + 64 <= 256 ->
+  exists r, (let* l := mlog df (limb a k) 2 in u256_add df l (64 * k)) = Ret r /\ is_log 2 a r.
+Proof.
+  intros Hz Hnz Hk. rewrite limb_val in *.
+  assert (P : 0 < 2 ^ (64 * k)) by apply pow2_pos.
+  assert (E : a / 2 ^ (64 * k) / 2 ^ 64 = 0).
+  { rewrite N.div_div by (try discriminate; lia). rewrite <- N.pow_add_r.
+    replace (64 * k + 64) with (64 * (k + 1)) by lia. exact Hz. }
+  assert (Hh : a / 2 ^ (64 * k) < 2 ^ 64).
+  { destruct (N.lt_ge_cases (a / 2 ^ (64 * k)) (2 ^ 64)) as [L | G]; [exact L|].
+    assert (1 <= a / 2 ^ (64 * k) / 2 ^ 64) by (apply N.div_le_lower_bound; [discriminate | lia]). lia. }
+  rewrite N.mod_small in * by exact Hh.
+  remember (a / 2 ^ (64 * k)) as h.
+  rewrite mlog2_df by exact Hnz. cbn [bind].
+  pose proof (ilog2_lt64 h ltac:(lia) Hh) as L64.
+  destruct (ilog_spec 2 h ltac:(lia) ltac:(lia) Hh) as [L1 L2]. remember (ilog 2 h) as l.
+  rewrite u256_add_df.
+  assert (B : l + 64 * k < 2 ^ 256).
+  { assert (l + 64 * k < 256) by lia. assert (256 < 2 ^ 256) by (vm_compute; reflexivity). lia. }
+  replace (l + 64 * k <? 2 ^ 256) with true by (symmetry; apply N.ltb_lt; exact B).
+  eexists. split; [reflexivity|].
+  assert (D : a = 2 ^ (64 * k) * h + a mod 2 ^ (64 * k)) by (subst h; apply N.div_mod; lia).
+  assert (M : a mod 2 ^ (64 * k) < 2 ^ (64 * k)) by (apply N.mod_lt; lia).
+  unfold is_log. replace (l + 64 * k + 1) with (l + 1 + 64 * k) by lia. rewrite !N.pow_add_r.
+  remember (2 ^ (64 * k)) as K. remember (a mod K) as m.
+  split.
+  - assert (2 ^ l * K <= h * K) by (apply N.mul_le_mono_r; exact L1). lia.
+  - rewrite <- N.pow_add_r. assert ((h + 1) * K <= 2 ^ (l + 1) * K) by (apply N.mul_le_mono_r; lia). lia.
+Qed.
+
+Lemma u256_log2_correct a : a < 2 ^ 256 ->
+  if a =? 0 then u256_log2 df a = Rev FAILED_ASSERT_SIGNAL
+  else exists r, u256_log2 df a = Ret r /\ is_log 2 a r.
+Proof.
+  intros Ha. unfold u256_log2. cbn [pue unsafemath df negb when].
+  destruct (a =? 0) eqn:E0; cbn [negb assert bind]; [reflexivity|].
+  apply N.eqb_neq in E0.
+  assert (Z4 : a / 2 ^ (64 * (3 + 1)) = 0) by (apply N.div_small; exact Ha).
+  destruct (limb a 3 =? 0) eqn:E3; cbn [negb].
+  2:{ apply N.eqb_neq in E3. apply (log2_at_limb a 3 Z4 E3). vm_compute. congruence. }
+  apply N.eqb_eq in E3.
+  assert (Z3 : a / 2 ^ (64 * (2 + 1)) = 0).
+  { rewrite limb_val in E3. change (64 * (2 + 1)) with (64 * 3).
+    assert (Q : a / 2 ^ (64 * 3) / 2 ^ 64 = 0).
+    { rewrite N.div_div by (try discriminate; vm_compute; congruence). rewrite <- N.pow_add_r. exact Z4. }
+    pose proof (N.div_mod (a / 2 ^ (64 * 3)) (2 ^ 64) ltac:(discriminate)) as D. rewrite Q, E3 in D. lia. }
+  destruct (limb a 2 =? 0) eqn:E2; cbn [negb].
+  2:{ apply N.eqb_neq in E2. apply (log2_at_limb a 2 Z3 E2). vm_compute. congruence. }
+  apply N.eqb_eq in E2.
+  assert (Z2 : a / 2 ^ (64 * (1 + 1)) = 0).
+  { rewrite limb_val in E2. change (64 * (1 + 1)) with (64 * 2).
+    assert (Q : a / 2 ^ (64 * 2) / 2 ^ 64 = 0).
+    { rewrite N.div_div by (try discriminate; vm_compute; congruence). rewrite <- N.pow_add_r. exact Z3. }
+    pose proof (N.div_mod (a / 2 ^ (64 * 2)) (2 ^ 64) ltac:(discriminate)) as D. rewrite Q, E2 in D. lia. }
+  destruct (limb a 1 =? 0) eqn:E1; cbn [negb].
+  2:{ apply N.eqb_neq in E1. apply (log2_at_limb a 1 Z2 E1). vm_compute. congruence. }
+  apply N.eqb_eq in E1.
+  assert (Z1 : a / 2 ^ (64 * (0 + 1)) = 0).
+  { rewrite limb_val in E1. change (64 * (0 + 1)) with (64 * 1).
+    assert (Q : a / 2 ^ (64 * 1) / 2 ^ 64 = 0).
+    { rewrite N.div_div by (try discriminate; vm_compute; congruence). rewrite <- N.pow_add_r. exact Z2. }
+    pose proof (N.div_mod (a / 2 ^ (64 * 1)) (2 ^ 64) ltac:(discriminate)) as D. rewrite Q, E1 in D. lia. }
+  destruct (limb a 0 =? 0) eqn:E00; cbn [negb].
+  2:{ apply N.eqb_neq in E00. destruct (log2_at_limb a 0 Z1 E00 ltac:(vm_compute; congruence)) as (r & Er & Lr).
+      exists r. split; [|exact Lr].
+      destruct (mlog df (limb a 0) 2) as [l | | |] eqn:El; cbn [bind] in Er; try discriminate.
+      rewrite u256_add_df in Er. change (64 * 0) with 0 in Er. rewrite N.add_0_r in Er.
+      destruct (l <? 2 ^ 256); [exact Er | discriminate]. }
+  apply N.eqb_eq in E00. exfalso.
+  rewrite limb_val in E00. change (64 * 0) with 0 in E00. change (2 ^ 0) with 1 in E00. rewrite N.div_1_r in E00.
+  change (64 * (0 + 1)) with 64 in Z1.
+  pose proof (N.div_mod a (2 ^ 64) ltac:(discriminate)) as D. rewrite Z1, E00 in D. lia.
+Qed.
